@@ -11,9 +11,18 @@ Local Open Scope Z_scope.
 Definition both_zero (v1 v2 : b64) : bool := b64_eq v1 b64_zero && b64_eq v2 b64_zero.
 
 (** the documented decisions, as a specification independent of the formulas *)
+(** pooled variance ((n1-1) v1 + (n2-1) v2) / (n1 + n2 - 2), in the code's evaluation order *)
+Definition pooled_var (x1 x2 : tsample) : b64 :=
+  b64_div (b64_add (b64_mul (b64_sub (ts_n x1) b64_one) (ts_var x1))
+                   (b64_mul (b64_sub (ts_n x2) b64_one) (ts_var x2)))
+          (b64_sub (b64_add (ts_n x1) (ts_n x2)) k_two).
+
+(** (repaired code, hooks/fix_c12_ttest_zero_dof.diff) an empty sample or no degrees of
+    freedom is a size error; a zero pooled variance is a zero-variance error *)
 Definition pooled_decision (x1 x2 : tsample) : option terr :=
-  if b64_eq (ts_n x1) b64_zero || b64_eq (ts_n x2) b64_zero then Some ErrSampleSize
-  else if both_zero (ts_var x1) (ts_var x2) then Some ErrZeroVariance else None.
+  if b64_eq (ts_n x1) b64_zero || b64_eq (ts_n x2) b64_zero || b64_le (b64_add (ts_n x1) (ts_n x2)) k_two
+  then Some ErrSampleSize
+  else if b64_eq (pooled_var x1 x2) b64_zero then Some ErrZeroVariance else None.
 
 Definition welch_decision (x1 x2 : tsample) : option terr :=
   if b64_le (ts_n x1) b64_one || b64_le (ts_n x2) b64_one then Some ErrSampleSize
@@ -25,7 +34,7 @@ Definition paired_decision (x1 x2 : list b64) : option terr :=
   else if b64_eq (stddev_f (diffs x1 x2)) b64_zero then Some ErrZeroVariance else None.
 
 Definition one_sample_decision (x : tsample) : option terr :=
-  if b64_eq (ts_n x) b64_zero then Some ErrSampleSize
+  if b64_le (ts_n x) b64_one then Some ErrSampleSize
   else if b64_eq (ts_var x) b64_zero then Some ErrZeroVariance else None.
 
 Definition is_err (o : tout) : option terr := match o with TErr e => Some e | _ => None end.
@@ -40,9 +49,12 @@ Section Decisions.
   Theorem pooled_decisions x1 x2 alt :
     is_err (two_sample_ttest tcdf_o x1 x2 alt) = pooled_decision x1 x2.
   Proof.
-    unfold two_sample_ttest, pooled_decision, both_zero.
-    destruct (b64_eq (ts_n x1) b64_zero || b64_eq (ts_n x2) b64_zero); [reflexivity|].
-    destruct (b64_eq (ts_var x1) b64_zero && b64_eq (ts_var x2) b64_zero); [reflexivity|].
+    unfold two_sample_ttest, pooled_decision, pooled_var.
+    destruct (b64_eq (ts_n x1) b64_zero || b64_eq (ts_n x2) b64_zero
+              || b64_le (b64_add (ts_n x1) (ts_n x2)) k_two); [reflexivity|].
+    cbv zeta.
+    match goal with |- context [if b64_eq ?v b64_zero then _ else _] => destruct (b64_eq v b64_zero) end;
+      [reflexivity|].
     apply new_result_not_err.
   Qed.
 
@@ -71,7 +83,7 @@ Section Decisions.
     is_err (one_sample_ttest tcdf_o x mu0 alt) = one_sample_decision x.
   Proof.
     unfold one_sample_ttest, one_sample_decision.
-    destruct (b64_eq (ts_n x) b64_zero); [reflexivity|].
+    destruct (b64_le (ts_n x) b64_one); [reflexivity|].
     destruct (b64_eq (ts_var x) b64_zero); [reflexivity|].
     apply new_result_not_err.
   Qed.
@@ -112,9 +124,12 @@ Section Decisions.
     two_sample_ttest tcdf_o x1 x2 alt = TOk (mkTR (b64_to_int n1) (b64_to_int n2) t dof alt p).
   Proof.
     intros Hd n1 n2 dof v12 t p Hp. subst n1 n2 dof v12 t.
-    unfold pooled_decision, both_zero in Hd. unfold two_sample_ttest.
-    destruct (b64_eq (ts_n x1) b64_zero || b64_eq (ts_n x2) b64_zero); [discriminate|].
-    destruct (b64_eq (ts_var x1) b64_zero && b64_eq (ts_var x2) b64_zero); [discriminate|].
+    unfold pooled_decision, pooled_var in Hd. unfold two_sample_ttest.
+    destruct (b64_eq (ts_n x1) b64_zero || b64_eq (ts_n x2) b64_zero
+              || b64_le (b64_add (ts_n x1) (ts_n x2)) k_two); [discriminate|].
+    cbv zeta.
+    match type of Hd with context [if b64_eq ?v b64_zero then _ else _] =>
+      destruct (b64_eq v b64_zero) end; [discriminate|].
     unfold new_result. rewrite Hp. reflexivity.
   Qed.
 
@@ -126,7 +141,7 @@ Section Decisions.
     one_sample_ttest tcdf_o x mu0 alt = TOk (mkTR (b64_to_int (ts_n x)) (Some 0) t dof alt p).
   Proof.
     intros Hd dof t p Hp. subst dof t. unfold one_sample_decision in Hd. unfold one_sample_ttest.
-    destruct (b64_eq (ts_n x) b64_zero); [discriminate|].
+    destruct (b64_le (ts_n x) b64_one); [discriminate|].
     destruct (b64_eq (ts_var x) b64_zero); [discriminate|].
     unfold new_result. rewrite Hp. reflexivity.
   Qed.
